@@ -106,7 +106,7 @@ func (d *Driver) Emit(scn Scenario, events []ctl.Event, sched any, extra map[str
 		keep = 1
 	}
 	runID := d.Shard*100000 + d.RunNo
-	reset := ctl.Event{"ev": "Reset", "run": runID, "mem": scn.Opts.Path == "", "keep": keep, "scn": scn.Name, "free": scn.Free}
+	reset := ctl.Event{"ev": "Reset", "run": runID, "mem": scn.Opts.Path == "", "keep": keep, "scn": scn.Name, "free": scn.Free, "noasync": scn.Opts.NoAsyncErr}
 	evs := append([]ctl.Event{reset}, events...)
 	path := fmt.Sprintf("%s/trace-keep%d-s%d.ndjson", d.Out, keep, d.Shard)
 	if err := ctl.WriteTrace(path, evs); err != nil {
@@ -367,6 +367,16 @@ func (d *Driver) faultRunsOf(runs int, name, classFilter string) {
 			scn.Opts.MinMemMerge, scn.Opts.Merge = 100, "none"
 			scn.Readers = 0
 		}
+		if name == "memfaults" {
+			// several callers and in-memory merges by the persister; failures on the persister's own writes
+			scn = d.randomScenario("memfaults", 1, 1, true)
+			scn.Clients = nil
+			for c := 0; c < 3+d.Rng.Intn(3); c++ {
+				scn.Clients = append(scn.Clients, []BatchSpec{{Ops: randomOps(d.Rng, allIds, true)}, {Ops: randomOps(d.Rng, allIds, true), CB: d.Rng.Intn(2) == 0}})
+			}
+			scn.Opts.MinMemMerge, scn.Opts.Merge = 2, "none"
+			scn.Readers = 0
+		}
 		if name == "filefaults" || name == "mergefaults" {
 			scn = d.mergeScenario()
 			scn.Opts.Path = "FS"
@@ -375,6 +385,7 @@ func (d *Driver) faultRunsOf(runs int, name, classFilter string) {
 		}
 		scn.Name = name
 		scn.Second = false
+		scn.Opts.NoAsyncErr = d.Rng.Intn(4) == 0 // the public configuration leaves the error callback nil
 		scn.Opts.Unsafe = d.Rng.Intn(2) == 0
 		if name == "faults" {
 			scn.Opts.Merge = []string{"eager2", "none", "default"}[d.Rng.Intn(3)]
@@ -423,7 +434,7 @@ func (d *Driver) faultRunsOf(runs int, name, classFilter string) {
 				c := classes[classNames[d.Rng.Intn(len(classNames))]]
 				op = c[d.Rng.Intn(len(c))]
 			}
-			f := ctl.Fault{Op: op, Stage: []string{"before", "partial", "after"}[d.Rng.Intn(3)]}
+			f := ctl.Fault{Op: op, Stage: []string{"before", "partial", "after", "writeerr"}[d.Rng.Intn(4)]}
 			if name == "faults" && k == 0 && d.Rng.Intn(2) == 0 {
 				// a failure while the writer is being opened (listing snapshots / segments): OpenWriter returns the error and
 				// must leave nothing behind -- the directory is opened again right afterwards
@@ -618,6 +629,9 @@ func (d *Driver) RunFamily(fam string, runs int) {
 			scn := d.mergeScenario()
 			scn.Name = "readers"
 			scn.Opts.Path = "FS"
+			if r.Intn(4) == 0 {
+				scn.Opts.Path = "" // the in-memory directory keeps superseded segments alive by reference only
+			}
 			scn.Readers = 2 + r.Intn(2)
 			scn.ReaderRounds = 2 + r.Intn(2)
 			scn.Backup = r.Intn(2) == 0
@@ -695,6 +709,8 @@ func (d *Driver) RunFamily(fam string, runs int) {
 		d.faultRuns(runs)
 	case "filefaults":
 		d.faultRunsOf(runs, "filefaults", "RemoveEnd")
+	case "memfaults":
+		d.faultRunsOf(runs, "memfaults", "pers:PersistBegin")
 	case "persfaults":
 		// failures only on the persister's re-loading of the segments it has just written
 		d.faultRunsOf(runs, "persfaults", "pers:LoadEnd")
